@@ -187,6 +187,17 @@ func cmdCheck(args []string) {
 			os.Exit(2)
 		}
 	}
+	if os.Getenv("GOVC_WRITE_ALL") != "" {
+		// maintenance: record the names generated on this (baseline) tree without touching the claims
+		var allNames []string
+		for _, r := range all {
+			allNames = append(allNames, r.Obl.Name)
+		}
+		sort.Strings(allNames)
+		os.WriteFile(filepath.Join(*vdir, "claims", *prop+".all"), []byte(strings.Join(allNames, "\n")+"\n"), 0o644)
+		fmt.Println("wrote", len(allNames), "names")
+		os.Exit(0)
+	}
 	if os.Getenv("GOVC_LIST_UNCLAIMED") != "" {
 		// maintenance aid: contract-labelled obligations that are generated but not claimed in this tier
 		for _, r := range all {
@@ -209,10 +220,22 @@ func cmdCheck(args []string) {
 		}
 	}
 	sort.Strings(openObls)
+	// names generated on the baseline (written with the claims): a panic-kind obligation whose name is not among them
+	// comes from code that did not exist then -- it is attempted, and reported if (and only if) its counterexample
+	// replays as a panic on the real code
+	baselineAll := readLines(filepath.Join(*vdir, "claims", *prop+".all"))
+	newSite := map[string]bool{}
+	if len(baselineAll) > 0 && !*writeClaims {
+		for _, r := range all {
+			if _, isKnown := known[r.Obl.Name]; !claims[r.Obl.Name] && !isKnown && panicKinds[r.Obl.Kind] && !baselineAll[r.Obl.Name] {
+				newSite[r.Obl.Name] = true
+			}
+		}
+	}
 	if *tier == "quick" && !*writeClaims {
 		var sel []*OblResult
 		for _, r := range all {
-			if claims[r.Obl.Name] {
+			if claims[r.Obl.Name] || newSite[r.Obl.Name] {
 				sel = append(sel, r)
 			} else if _, isKnown := known[r.Obl.Name]; isKnown {
 				sel = append(sel, r)
@@ -248,6 +271,14 @@ func cmdCheck(args []string) {
 		}
 		sort.Strings(names)
 		os.MkdirAll(filepath.Join(*vdir, "claims"), 0o755)
+		if *tier == "quick" {
+			var allNames []string
+			for _, r := range all {
+				allNames = append(allNames, r.Obl.Name)
+			}
+			sort.Strings(allNames)
+			os.WriteFile(filepath.Join(*vdir, "claims", *prop+".all"), []byte(strings.Join(allNames, "\n")+"\n"), 0o644)
+		}
 		os.WriteFile(filepath.Join(*vdir, "claims", *prop+"."+*tier), []byte(strings.Join(names, "\n")+"\n"), 0o644)
 		fmt.Printf("wrote %d claims\n", len(names))
 	}
@@ -338,6 +369,20 @@ func cmdCheck(args []string) {
 			report(name, r.Status, r)
 		}
 	}
+	var newSitesOpen []string
+	for _, r := range all {
+		if !newSite[r.Obl.Name] || r.Status == "discharged" {
+			continue
+		}
+		if r.Status == "refuted" {
+			if rr := tryReplay(p, r, *vdir, replayDir); rr != nil && rr.Reproduced {
+				report(r.Obl.Name, "new-panic-site", r)
+				continue
+			}
+		}
+		newSitesOpen = append(newSitesOpen, r.Obl.Name+" ["+r.Status+"]")
+	}
+	sort.Strings(newSitesOpen)
 	for _, r := range all {
 		if r.Obl.Kind == "cover" {
 			if r.Status == "cover-fail" {
@@ -429,6 +474,7 @@ func cmdCheck(args []string) {
 			"trusted_base":                          trustedBase,
 			"functions":                             fnInfo,
 			"open_contract_obligations":             openObls,
+			"new_panic_sites_not_reproduced":        newSitesOpen,
 			"by_solver":                             bySolver,
 			"solver_time_s":                         solverTime,
 			"generated_obligations":                 len(all),
